@@ -21,12 +21,14 @@ RetNil == [op |-> "ret", r |-> "nil"]
 Q1 == [id |-> 1, parse |-> "ok", stmts |-> <<[id |-> 1, cols |-> <<>>, oids |-> <<>>, prog |-> <<Done, RetNil>>]>>]
 
 StartupMsg == [t |-> "Startup", term |-> TRUE, kvs |-> <<[k |-> "user", v |-> "u"], [k |-> "database", v |-> "d"]>>]
+\* the same packet with surplus bytes behind the terminator that spell an acceptable password
+StartupTail == [t |-> "Startup", term |-> TRUE, kvs |-> <<[k |-> "user", v |-> "u"], [k |-> "database", v |-> "d"]>>, tail |-> "good-leftover"]
 
 InPlaceOfPassword ==
-    {[t |-> "p", pw |-> o, pwd |-> o] : o \in {"good", "bad", "err"}}
+    {[t |-> "p", pw |-> o, pwd |-> o] : o \in {"good", "bad", "err", "errc"}}
     \cup {[t |-> "Q", q |-> Q1], [t |-> "X"], [t |-> "S"], [t |-> "U"],
           [t |-> "P", name |-> "", q |-> Q1, noids |-> 0],
-          [t |-> "Bad", ty |-> "p", cls |-> "nonul"],
+          [t |-> "Bad", ty |-> "p", cls |-> "nonul"], [t |-> "Bad", ty |-> "p", cls |-> "short"],
           [t |-> "Big", ty |-> "p", over |-> 1],
           [t |-> "Tiny", ty |-> "p", declared |-> 3]}
 
@@ -45,7 +47,7 @@ Push(m, nowait) ==
 MCSend ==
     /\ phase # "closed" /\ ~eof
     /\ \/ /\ Quiet /\ phase = "startup" /\ ssl = "none" /\ hist = <<>> /\ Push([t |-> "SSLRequest"], FALSE)
-       \/ /\ Quiet /\ phase = "startup" /\ Push(StartupMsg, FALSE)
+       \/ /\ Quiet /\ phase = "startup" /\ (Push(StartupMsg, FALSE) \/ Push(StartupTail, FALSE))
        \/ /\ Quiet /\ phase = "auth" /\ \E m \in InPlaceOfPassword, nw \in BOOLEAN : Push(m, nw)
        \/ /\ phase \in {"auth", "ready"} /\ Len(inq) < 2
           /\ Len(SelectSeq(hist, LAMBDA e : e.m.t \notin {"Startup", "SSLRequest"})) \in 1..MaxAfter
